@@ -346,7 +346,7 @@ def _labels_shard(job):
                     if nontriv:
                         digs.append(_digest((ranks, lab, desc, fdr)))
                     if cid:
-                        rank = (fdr not in FIXED_FDRS, n)           # prefer an everyday threshold, then small n
+                        rank = (fdr not in FIXED_FDRS, fdr in (1 / 3, 2 / 3), n)   # everyday threshold, then small n
                         if cid not in vio or rank < vio[cid][0]:
                             vio[cid] = (rank, what, {"scores": list(ranks), "targets": [int(x) for x in lab],
                                                      "desc": desc, "eval_fdr": fdr})
